@@ -412,6 +412,35 @@ func (r *Run) applyModifies(env *Env, st *State, m *SX) {
 			arr := r.heapArr(st, n, "(Array Int "+srt+")")
 			r.setHeapArr(st, n, "(Array Int "+srt+")", app("store", arr, v.Ref, r.fresh("elems", "(Array Int "+srt+")")))
 		}
+	case "mapof":
+		v := r.eval(env, m.List[1])
+		mt, ok := v.Ty.Underlying().(*types.Map)
+		if !ok {
+			r.toolErr("%s: modifies (mapof x): not a map", env.ctx)
+			return
+		}
+		ks := scalarSort(mt.Key())
+		inN, lenN := mapArrNames(mt)
+		in := r.heapArr(st, inN, "(Array "+ks+" Bool)")
+		r.setHeapArr(st, inN, "(Array "+ks+" Bool)", app("store", in, v.T, r.fresh("mapin", "(Array "+ks+" Bool)")))
+		ln := r.heapArr(st, lenN, "Int")
+		nl := r.fresh("maplen", "Int")
+		st.assume(app("<=", "0", nl))
+		r.setHeapArr(st, lenN, "Int", app("store", ln, v.T, nl))
+		et := mt.Elem()
+		leaves := []leaf{{ty: et}}
+		if _, isStruct := et.Underlying().(*types.Struct); isStruct && !isOpaqueNamed(et) {
+			leaves = structLeaves(et)
+		}
+		for _, lf := range leaves {
+			srt := scalarSort(lf.ty)
+			if srt == "" {
+				continue
+			}
+			n := mapValArr(mt, lf.name)
+			arr := r.heapArr(st, n, "(Array "+ks+" "+srt+")")
+			r.setHeapArr(st, n, "(Array "+ks+" "+srt+")", app("store", arr, v.T, r.fresh("mapval", "(Array "+ks+" "+srt+")")))
+		}
 	case "deref":
 		v := r.eval(env, m.List[1])
 		r.havocTarget(st, v)
